@@ -47,6 +47,23 @@ def load_prop(pid):
     return importlib.import_module("dsim.props.%s" % pid.lower())
 
 
+def safe_check(mod, pid, sc):
+    """mod.check(sc); an exception raised inside the repository's code on a call the check makes unconditionally on valid
+    input (expected rejections are handled inside the checks) is behaviour of the SUT and is reported as a violation;
+    anything else propagates (harness error)."""
+    try:
+        return mod.check(sc)
+    except Exception as exc:
+        from .driver import classify_exception
+        if classify_exception(exc) != "sut":
+            raise
+        out = Outcome()
+        out.add("%s/unexpected_exception:%s" % (pid, type(exc).__name__),
+                "%s: %s | %s" % (type(exc).__name__, str(exc)[:200], traceback.format_exc().strip().splitlines()[-3].strip()[:160]))
+        out.digest = "exception"
+        return out
+
+
 def _merge(d, s):
     for k, v in s.items():
         d[k] = d.get(k, 0) + v
@@ -68,9 +85,9 @@ def _worker(args):
             sc["property"] = pid
             sc["verif_seed"] = seed
             sc["run"] = idx
-            out = mod.check(sc)
+            out = safe_check(mod, pid, sc)
             if det_every and idx % det_every == 0 and getattr(mod, "DETERMINISTIC", True):
-                out2 = mod.check(json.loads(json.dumps(sc)))
+                out2 = safe_check(mod, pid, json.loads(json.dumps(sc)))
                 agg["det_checked"] += 1
                 if out2.digest != out.digest or out2.tags() != out.tags():
                     agg["det_mismatch"].append(idx)
@@ -116,7 +133,7 @@ def shrink(mod, sc, tag, budget_runs=300, budget_s=45.0):
                 break
             runs += 1
             try:
-                out = mod.check(json.loads(json.dumps(cand)))
+                out = safe_check(mod, cand.get("property", "?"), json.loads(json.dumps(cand)))
             except Exception:
                 continue
             if tag in out.tags():
@@ -160,7 +177,7 @@ def replay(pid, path):
     mod = load_prop(pid)
     sc = json.load(open(path))
     want = sc.get("violation", {}).get("oracle")
-    out = mod.check(sc)
+    out = safe_check(mod, pid, sc)
     print("replay %s: expected oracle=%s got=%s digest=%s" % (path, want, out.tags(), out.digest))
     if out.viol:
         tag, detail = out.viol[0]
@@ -187,7 +204,7 @@ def _digest_chunk(args):
     for idx in range(lo, hi):
         sc = mod.gen(run_seed(seed, pid, idx), tier)
         sc["property"], sc["verif_seed"], sc["run"] = pid, seed, idx
-        out = mod.check(sc)
+        out = safe_check(mod, pid, sc)
         rows.append("%d %s %s %s" % (idx, out.digest, out.sig, ",".join(sorted(out.tags()))))
     return rows
 
@@ -308,7 +325,7 @@ def main(argv=None):
             continue
         seen_tags.add(tag)
         small, sruns = (sc, 0) if a.no_shrink else shrink(mod, sc, tag)
-        out = mod.check(json.loads(json.dumps(small)))
+        out = safe_check(mod, pid, json.loads(json.dumps(small)))
         d = dict(out.viol).get(tag, detail)
         small = dict(small)
         small["violation"] = {"oracle": tag, "detail": d, "event_log_digest": out.digest, "shrink_runs": sruns,
